@@ -10,17 +10,23 @@ Require Import Mistral.Proofs.SliceProofs Mistral.Proofs.NormProofs Mistral.Proo
 Import ListNotations.
 Open Scope string_scope.
 
-(* ---- slicing (parser._parse_def_from_wb) ---- *)
+(* ---- slicing (parser._parse_def_from_wb, the slicer of fix 1e28c643) ---- *)
 
-(* For every text  header / section line / earlier lines / member rendered at indentation k /
-   rest: the slicer returns exactly the member (name line + body, de-indented), PROVIDED the
-   section name does not occur in the header and no earlier line of the section reads `name:`. *)
+(* For every text  header / section key at the top indentation / earlier lines of the section /
+   member rendered at indentation k / rest: the slicer returns exactly the member (name line +
+   body, de-indented).  The earlier lines are arbitrary apart from the shape of a YAML mapping:
+   inside the section, members at indentation k, none of them the key `name:` itself.  Deeper
+   lines (a task named like the member, texts containing the section name) are irrelevant:
+   the hypothesis "no earlier line reads name:" of the unrepaired slicer is gone. *)
 Theorem C14_slice_faithful :
-  forall sec header secline before k m after,
-    no_line_contains sec header = true ->
-    contains sec secline = true ->
-    no_line_is (m_name m ++ ":") before = true ->
+  forall sec header secline before top k m after,
+    header_ok sec top header = true ->
+    is_content secline = true -> key_is secline sec = true -> lead_ws secline = top ->
+    before_ok (m_name m ++ ":") top k before = true ->
+    top < k ->
+    is_content (m_name m ++ ":") = true ->
     lead_ws (m_name m ++ ":") = 0 ->
+    key_of (m_name m ++ ":") = Some (m_name m ++ ":") ->
     forallb body_line_ok (m_body m) = true ->
     tail_ok k after ->
     slice sec (m_name m ++ ":") (header ++ secline :: before ++ render_member k m ++ after)
@@ -28,25 +34,21 @@ Theorem C14_slice_faithful :
 Proof. exact slice_faithful. Qed.
 Print Assumptions C14_slice_faithful.
 
-(* Without the hypothesis on earlier lines the statement is false (finding F3: a task named
-   like a later workflow is returned instead of the workflow). *)
-Theorem C14_slice_refuted :
-  exists sec header secline before k m after,
-    no_line_contains sec header = true /\
-    contains sec secline = true /\
-    lead_ws (m_name m ++ ":") = 0 /\
-    forallb body_line_ok (m_body m) = true /\
-    tail_ok k after /\
-    slice sec (m_name m ++ ":") (header ++ secline :: before ++ render_member k m ++ after)
-    = Some (finish ["wf2:"; "  action: std.noop"]) /\
-    finish ["wf2:"; "  action: std.noop"] <> finish ((m_name m ++ ":") :: m_body m).
-Proof. exact slice_refuted. Qed.
-Print Assumptions C14_slice_refuted.
+(* the witnesses of the old defect (finding F3 and its family) are cut correctly *)
+Theorem C14_slice_regression :
+  slice "workflows:" "wf2:" f3_lines = Some (finish ["wf2:"; "  tasks:"; "    t:"; "      action: std.echo output=1"]) /\
+  slice "workflows:" "wf1:" quoted_lines = Some (finish ["'wf1' : # c"; "  tasks:"; "    t:"; "      action: std.noop"]) /\
+  slice "actions:" "wf1:" quoted_lines = Some (finish ["wf1: {base: std.noop}"]).
+Proof. exact slice_regression. Qed.
+Print Assumptions C14_slice_regression.
 
-Theorem C14_slice_defined_iff : forall sec item lines,
-  slice sec item lines <> None <-> existsb (contains sec) lines = true.
-Proof. exact slice_defined_iff. Qed.
-Print Assumptions C14_slice_defined_iff.
+(* the slicer does not raise when the section key is there *)
+Theorem C14_slice_defined : forall sec item header secline rest top,
+  header_ok sec top header = true ->
+  is_content secline = true -> key_is secline sec = true -> lead_ws secline = top ->
+  slice sec item (header ++ secline :: rest) <> None.
+Proof. exact slice_defined. Qed.
+Print Assumptions C14_slice_defined.
 
 (* ---- stored form (constructors' in-place normalisation, to_dict) ---- *)
 
@@ -139,67 +141,51 @@ Theorem C14_guards_task_reverse : forall re t,
 Proof. exact guards_task_reverse. Qed.
 Print Assumptions C14_guards_task_reverse.
 
-(* WorkflowSpec: only for task names the `tasks` pattern covers *)
-Theorem C14_guards_workflow_partial : forall re w,
+Theorem C14_guards_workflow : forall re w,
   validate re S_DirectWorkflowSpec (JObj w) = true ->
-  entries_ok (lookup "input" w) = true /\
-  exists ts, lookup "tasks" w = Some (JObj ts) /\
-             ((forall k x, In (k, x) ts -> re pat_word k = true) -> all_tasks_are_dicts ts = true).
+  entries_ok (lookup "input" w) = true /\ exists ts, lookup "tasks" w = Some (JObj ts).
 Proof. exact guards_wf_direct. Qed.
-Print Assumptions C14_guards_workflow_partial.
+Print Assumptions C14_guards_workflow.
 
 (* ---- schema guards build, whole documents ---- *)
 
-(* For every document, regex oracle (knowing only that "next" contains no whitespace) and
-   inline-parameter oracle: if every workflow has a hashable `type`, task names matching ^\w+$
-   and no inline parameters next to a non-dict `input` (wf_list_class), building the workflow
-   list with validate=True does not end in an internal error. *)
-Theorem C14_schema_guards_build_wf_list_partial : forall re pp,
+(* For EVERY document (JSON-like value), every regex oracle (knowing only that "next" contains
+   no whitespace), every inline-parameter and version-parsing oracle: building with validate=True
+   does not end in an internal error.  Unconditional since fix 31aaf4b7.  Still outside these
+   statements (decided by the run only): YAML text -> value, expression grammars, resource limits
+   (recursion depth), values outside the JSON-like type (rejected by parse_yaml / the schemas). *)
+Theorem C14_schema_guards_build_wf_list : forall re pp,
   re pat_nonspace "next" = true ->
-  forall d, wf_list_class re pp d = true -> fst (walk_wf_list re pp d) <> VCrash.
+  forall d, fst (walk_wf_list re pp d) <> VCrash.
 Proof. exact wf_list_no_internal_error. Qed.
-Print Assumptions C14_schema_guards_build_wf_list_partial.
+Print Assumptions C14_schema_guards_build_wf_list.
 
-(* action definitions: no hypothesis at all *)
 Theorem C14_schema_guards_build_action_list : forall re pp d,
   fst (walk_action_list re pp d) <> VCrash.
 Proof. exact action_list_no_internal_error. Qed.
 Print Assumptions C14_schema_guards_build_action_list.
 
-Theorem C14_schema_guards_build_workbook_partial : forall re pp,
+Theorem C14_schema_guards_build_workbook : forall re pp,
   re pat_nonspace "next" = true ->
-  forall fl d, wb_class re pp d = true -> fst (walk_wb re pp fl d) <> VCrash.
+  forall fl d, fst (walk_wb re pp fl d) <> VCrash.
 Proof. exact workbook_no_internal_error. Qed.
-Print Assumptions C14_schema_guards_build_workbook_partial.
+Print Assumptions C14_schema_guards_build_workbook.
 
-(* none of the class hypotheses can be dropped: the faithful model ends in an internal error *)
-Theorem C14_guards_refuted_task_name :
-  re0 pat_nonspace "next" = true /\
-  walk_wf_list re0 pp0 d4_doc = (VCrash, [(CWfList, true); (CWfD, true)]).
-Proof. exact guards_refuted_task_name. Qed.
-Print Assumptions C14_guards_refuted_task_name.
+(* the documents that refuted these statements before the fix are definition errors now *)
+Theorem C14_guards_regression :
+  walk_wf_list re0 pp0 d4_doc = (VDsl, [(CWfList, true); (CWfD, true)]) /\
+  walk_wf_list re0 pp0 d5_doc = (VDsl, [(CWfList, true); (CWfD, true); (CTaskD, true); (CPolicies, true)]) /\
+  walk_wf_list re0 pp0 d3_doc = (VDsl, [(CWfList, true)]) /\
+  walk_wf_list re0 pp0 d11_doc = (VDsl, [(CWfList, true); (CWfD, true)]) /\
+  walk_wb re0 pp0 fl0 (JNum 5 1) = (VDsl, [(CWb, false)]) /\
+  walk_wb re0 pp0 fl0 (JStr "version") = (VDsl, [(CWb, false)]) /\
+  fst (walk_wb re0 pp0 fl0 (JObj [("version", JNum 2 1); ("name", JStr "wb")])) = VOk.
+Proof. exact regression_old_witnesses. Qed.
+Print Assumptions C14_guards_regression.
 
-Theorem C14_guards_refuted_input_merge :
-  re0 pat_nonspace "next" = true /\
-  walk_wf_list re0 pp0 d5_doc = (VCrash, [(CWfList, true); (CWfD, true); (CTaskD, true); (CPolicies, true)]).
-Proof. exact guards_refuted_input_merge. Qed.
-Print Assumptions C14_guards_refuted_input_merge.
-
-Theorem C14_guards_refuted_dispatch :
-  walk_wf_list re0 pp0 d3_doc = (VCrash, [(CWfList, true)]).
-Proof. exact guards_refuted_dispatch. Qed.
-Print Assumptions C14_guards_refuted_dispatch.
-
-Theorem C14_guards_refuted_version_probe :
-  walk_wb re0 pp0 fl0 (JNum 5 1) = (VCrash, []) /\
-  walk_wb re0 pp0 fl0 (JStr "version") = (VCrash, []) /\
-  walk_wb re0 pp0 fl0 (JObj [("version", JNum 2 1); ("name", JStr "wb")]) = (VNone, []).
-Proof. exact guards_refuted_version_probe. Qed.
-Print Assumptions C14_guards_refuted_version_probe.
-
-(* the hypotheses are satisfiable by a non-trivial document that is accepted after ten schema
-   validations (list, workflow, task-defaults, policies, one-line retry, two tasks, an on-clause) *)
+(* a non-trivial document that is accepted after ten schema validations (list, workflow,
+   task-defaults, policies, one-line retry, two tasks, an on-clause) *)
 Example C14_nonvacuous :
-  re1 pat_nonspace "next" = true /\ wf_list_class re1 pp1 good_doc = true /\
+  re1 pat_nonspace "next" = true /\
   fst (walk_wf_list re1 pp1 good_doc) = VOk /\ List.length (snd (walk_wf_list re1 pp1 good_doc)) = 10.
-Proof. exact good_doc_in_class. Qed.
+Proof. exact good_doc_accepted. Qed.
